@@ -151,7 +151,27 @@ def c05(run):
         "line buffer is rejected (R-STREAM-CAP). Necessary for 'same messages however the stream is cut' and 'over-long closes the session'.")
 
 
+def c16(run):
+    from rules import r_lenread, r_uriclass, r_allocnull
+    P = run.prog('rel')
+    r_lenread.run(run, P)
+    r_uriclass.run(run, P)
+    uri_funcs = set(f['name'] for f in P.lib_funcs() if f['unit'] == 'coap_uri.c')
+    r_allocnull.run(run, P, only=uri_funcs)
+    run.min_instances('R-LEN-READ', 12)
+    run.min_instances('R-URI-CLASS', 2)
+    run.assumptions = ASSUME_COMMON + ["agreement with RFC 3986 on all strings, dot-segment resolution and the single-length two-cursor scanner "
+                                       "coap_split_uri_sub are NOT decided"]
+    return run.finish(
+        "URI helpers: every look-ahead read of the length-delimited scanners (check_segment, dots, strnchr, coap_replace_percents, "
+        "coap_host_is_unix_domain) is proven inside the delimited bytes by a cursor/remaining-length analysis, and decode_segment is only called "
+        "after a tested check_segment on the same arguments (R-LEN-READ); the unescaped character classes, evaluated for all 256 byte values on "
+        "the extracted expression, exclude the separators the reconstruction writes and '%' (R-URI-CLASS, necessary for injectivity); optlist "
+        "constructors are NULL-checked (R-ALLOC-NULL).")
+
+
 PROPS = {
+    'C16': c16,
     'C05': c05,
     'C01': c01,
     'C03': c03,
